@@ -60,7 +60,7 @@ theorem gen_commit_patch (s : State) (hp : PyRep s.h) (kw : Kw) :
             | some p =>
               obtain ⟨ub0, hg⟩ := getF_of_payloadOf hpay
               simp [hget, pySetUblocks, pyDictGet_pyDictSet_eq, pyUBSave, hg, pyH5Open, getF_setF_eq, pySetFiles,
-                pySetIdx_last_snoc, commitTrace, gen_constants.1, hc, ha]
+                pySetIdx_last_snoc, commitTrace, gen_constants, hc, ha]
 
 /-- **`IH5Record.commit_patch()`** as regenerated from the source is the model's `commitPlain` -/
 theorem gen_commit_patch_model (s : State) (hp : PyRep s.h) (hd : OnDisk s) :
@@ -68,6 +68,13 @@ theorem gen_commit_patch_model (s : State) (hp : PyRep s.h) (hd : OnDisk s) :
   rw [gen_commit_patch s hp]; exact commitPlainW_res s hp hd
 
 /-! ## the manifest class -/
+
+theorem gen_manifest_ext : MANIFEST_EXT = mfExt := rfl
+
+/-- the sidecar is named after the **container file** (one manifest per container, so that writing the
+manifest of a new patch never touches the manifest of a committed one) -/
+theorem gen_manifest_filepath (f : Name) : IH5MFRecord._manifest_filepath f = manifestFile f := by
+  simp [IH5MFRecord._manifest_filepath, manifestFile, gen_manifest_ext]
 
 theorem gen_manifest (w : World) :
     IH5MFRecord.manifest w = match w.self.manifest with
